@@ -831,7 +831,7 @@ def run(res, tier, seed):
     # ---- name resolution across contexts (functions, parameters, locals, computed values): outside the AST fragment of the
     #      definition; decided here by the VM model (Model/VM.v load_walk / computed_execute) against the real VM, K2-style
     sc_inputs = []
-    for _ in range(120 if tier == "quick" else 1500):
+    for _ in range(200 if tier == "quick" else 2000):
         v = r.choice(["x", "y", "hp"])
         a, b2 = r.randrange(1, 9), r.randrange(10, 99)
         expr = r.choice([f"{v} + 1", f"{v} * 3", f"[{v}, {v}]", f"{v} - 2", f"`{{{v}}}`", f"{v} ?? 0"])
@@ -846,6 +846,17 @@ def run(res, tier, seed):
             f"{v} = {a}; &cv = {expr}; func g({v}) {{ [cv, {v}] }}; [g({b2}), {v}, cv]",
             f"func g(u) {{ u[0] = 9; u = 1 }}; {v} = [{a}]; g({v}); {v}",
             f"{v} = {a}; func g() {{ {v} = {v} + 1; {v} }}; [g(), {v}]",
+            # values are copied where the language copies them: slices (also full-range ones), concatenation, repetition
+            f"{v} = [{a}, 2, 3]; w = {v}[:]; w[0] = {b2}; [{v}, w]",
+            f"{v} = [{a}, 2, 3]; w = {v}[0:3]; w.push(4); [{v}, w]",
+            f"{v} = [{a}, 2, 3]; w = {v}[-3:]; {v}[1] = {b2}; [{v}, w]",
+            f"{v} = [{a}, 2, 3]; w = {v}[0:10]; w[2] = 0; [{v}, w, {v} == w]",
+            f"{v} = [{a}, 2]; w = {v}[1:]; w[0] = {b2}; [{v}, w]",
+            f"{v} = [{a}, 2]; w = {v} + []; w[0] = {b2}; [{v}, w]",
+            f"{v} = [{a}, 2]; w = {v} * 1; w[0] = {b2}; [{v}, w]",
+            f"{v} = [{a}, 2, 3]; func g(u) {{ t = u[:]; t[0] = {b2}; t }}; [g({v}), {v}]",
+            f"{v} = 'abcdef'; w = {v}[:]; [{v}[0:6], w, {v}[-6:] == w]",
+            f"{v} = [[{a}], 2]; w = {v}[:]; w[0][0] = {b2}; [{v}, w]",
         ])
         parts = shape.split("; ")
         cut = r.randrange(0, len(parts)) if r.random() < 0.4 else 0
